@@ -152,8 +152,8 @@ def modifyAt {α : Type} (f : α → α) : List α → Nat → List α
 /-- one iteration of the `while` loop of `find_common_modalities`: groups are lists of the
     original labels (members), leader = the kept modality's leader; returns `none` when the loop
     condition is false -/
-def mergeStep (groups : List (List String)) (stats : List Stat) (lenDf : Nat) (minFreq : Rat) :
-    Option (List (List String) × List Stat) :=
+def mergeStep {α : Type} (groups : List (List α)) (stats : List Stat) (lenDf : Nat) (minFreq : Rat) :
+    Option (List (List α) × List Stat) :=
   if stats.length ≤ 1 then none
   else if !(stats.any (fun s => decide ((((s.n : Nat) : Rat) / (lenDf : Nat)) < minFreq))) then none
   else
@@ -166,7 +166,7 @@ def mergeStep (groups : List (List String)) (stats : List Stat) (lenDf : Nat) (m
     | _, _ => none
 
 /-- the loop, with the number of modalities as fuel (each iteration removes one) -/
-def mergeLoop : Nat → List (List String) → List Stat → Nat → Rat → List (List String) × List Stat
+def mergeLoop {α : Type} : Nat → List (List α) → List Stat → Nat → Rat → List (List α) × List Stat
   | 0, g, s, _, _ => (g, s)
   | fuel + 1, g, s, lenDf, minFreq =>
     match mergeStep g s lenDf minFreq with
@@ -176,8 +176,8 @@ def mergeLoop : Nat → List (List String) → List Stat → Nat → Rat → Lis
 /-- `find_common_modalities(df_feature, y, min_freq, order)`: result as groups of labels, each
     written discarded-members-first with the leader last … (`GroupedList.group` semantics: the
     leader is the *kept* label, which is the last element of its group here) -/
-def findCommonModalities (labels : List String) (stats : List Stat) (lenDf : Nat) (minFreq : Rat) :
-    List (List String) :=
+def findCommonModalities {α : Type} (labels : List α) (stats : List Stat) (lenDf : Nat) (minFreq : Rat) :
+    List (List α) :=
   (mergeLoop labels.length (labels.map (fun l => [l])) stats lenDf minFreq).1
 
 end BaseDisc
